@@ -1080,12 +1080,18 @@ int32 psAddUserExtToSession(ssl_t *ssl,
 {
     int32 rc;
 
-    if (ext == NULL)
+    if (ssl->userExt == ext)
     {
-        ssl->userExt = NULL;
         return PS_SUCCESS;
     }
-    if (ssl->userExt == ext)
+    if (ssl->userExt != NULL)
+    {
+        /* The copy made for an earlier ClientHello of this session (a DTLS
+           client writes a second one after HelloVerifyRequest) */
+        matrixSslDeleteHelloExtension(ssl->userExt);
+        ssl->userExt = NULL;
+    }
+    if (ext == NULL)
     {
         return PS_SUCCESS;
     }
